@@ -913,8 +913,11 @@ class C11(Check):
             "documented grammar.  Non-trivial: the query mentions a condition or more than one relation; "
             "distinct by query text and data.")
     assumptions = [
-        "the lexer regexes are not modelled: the model parses token lists (generator-intended tokens for grammar "
-        "cases, the real lexer's tokens for keyword-prefixed identifiers)",
+        "the lexer regexes are modelled by hand-coded matchers (lean Model.lexLine, 20 ordered classes); the model's "
+        "token stream is compared with _TSQLLexer.prelex on every generated ASCII text and on 300 (quick) glued-"
+        "fragment stress texts; the parser model still receives token lists (generator-intended tokens for "
+        "grammar cases, the real lexer's tokens for keyword-prefixed identifiers), and the lexeme-to-value steps "
+        "int() and tsdb.cast(':date') stay parameters",
         "tsdb.cast and int() are parameters of the model: cells and literals arrive with their cast values",
         "re.search is a parameter of the model: its truth table on every (pattern, value) pair of the case is "
         "shipped with the request",
